@@ -280,8 +280,19 @@ func (c *channel) receiveSession(ctx context.Context) (*Session, error) {
 	state := c.State()
 
 	switch state {
-	case SessionStateFinished:
-		return nil, fmt.Errorf("receive session: cannot do in the %v state", state)
+	case SessionStateFinished, SessionStateFailed:
+		// The receiver goroutine may already have taken the session envelope that ended the
+		// session, and adopted its state, before the caller got here: it is still handed out.
+		select {
+		case s, ok := <-c.inSesChan:
+			if ok {
+				return s, nil
+			}
+		default:
+		}
+		if state == SessionStateFinished {
+			return nil, fmt.Errorf("receive session: cannot do in the %v state", state)
+		}
 	case SessionStateEstablished:
 		select {
 		case <-ctx.Done():
